@@ -152,6 +152,26 @@ fn main() {
             println!("{}", serde_json::to_string_pretty(&acc.report(json!(null))).unwrap());
             std::process::exit(if acc.violation_count > 0 { 1 } else { 0 });
         }
+        "miri-leg" => {
+            // Small workload meant to run under `cargo +nightly miri run`: the same monitors,
+            // a few cases each; Miri aborts the process on UB / leaks / invalid borrows.
+            let prop = a["prop"].clone();
+            let seed: u64 = a.get("seed").map(|s| s.parse().unwrap()).unwrap_or(1);
+            let cases: u64 = a.get("cases").map(|s| s.parse().unwrap()).unwrap_or(10);
+            let first: u64 = a.get("first").map(|s| s.parse().unwrap()).unwrap_or(0);
+            let mut acc = acc::Acc::default();
+            for idx in first..first + cases {
+                // C07's first indices are its enumerated space; use generated cases instead
+                let i = if prop == "C07" { idx + 100_000 } else { idx };
+                monitors::run_case(&prop, i, case_seed(seed ^ 0x4d495249, &prop, i), &mut acc);
+            }
+            println!(
+                "MIRI-LEG {}",
+                json!({"prop": prop, "cases": acc.cases, "evaluations": acc.evaluations, "held": acc.held,
+                       "violations": acc.violation_count, "violation_sigs": acc.violation_sigs, "events": acc.events})
+            );
+            std::process::exit(if acc.violation_count > 0 { 1 } else { 0 });
+        }
         "count-distinct" => {
             let mut set = std::collections::HashSet::new();
             for f in &argv[2..] {
